@@ -23,6 +23,8 @@ impl RequestHandler<CodeLensRequest> for CodeLensRequestHandler {
 
         let result = tests
             .into_iter()
+            // The tests of imported files are found too, but they are located in other documents
+            .filter(|(sl, _)| std::path::Path::new(sl.file.name()) == path)
             .flat_map(|(sl, test_case_path)| {
                 let run = CodeLens {
                     range: to_range(sl.clone()),
